@@ -86,6 +86,7 @@ Check(e) ==
                      ELSE IF QDrift(e) THEN PrintT(<<"DRIFT", l>>) ELSE TRUE
     [] e.ev = "F" -> LET r == FReason(e) IN IF r # "ok" THEN PrintT(<<"REJECT", l, r>>) ELSE TRUE
     [] e.ev = "Dist" -> IF e.b # <<>> /\ e.d # LevDP(e.a, e.b) THEN PrintT(<<"REJECT", l, "distance-function">>) ELSE TRUE
+    [] e.ev = "StrAgree" -> IF ~e.agree THEN PrintT(<<"REJECT", l, "string-and-character-lookups-disagree">>) ELSE TRUE
     [] e.ev = "Panic" -> PrintT(<<"REJECT", l, "panic">>)
     [] OTHER -> PrintT(<<"REJECT", l, "unknown-event">>)
 
